@@ -6,3 +6,5 @@ PAIRS += [_hc.pair()]      # mi_heap_collect_ex: steps, force flags and order of
 PAIRS += [_hc.page_collect_pair()]      # per-page step of a collection: empty => freed, live blocks => kept (abandoned on thread exit), never freed
 import page_common as _pc
 PAIRS += [_pc.page_abandon_pair()]      # a page with live blocks is unlinked, detached and handed to the segment layer once; nothing is freed
+import seg_common as _sc2
+PAIRS += [_sc2.pairs()[k] for k in ('segment_page_free', 'segment_page_abandon',)]      # last page freed => segment freed; only abandoned pages left => segment abandoned
